@@ -9,6 +9,7 @@
 //verif:include cose_env.go
 //verif:include cose_content.go
 //verif:harness H_C01_cose_verify
+//verif:harness H_C01_cose_verify_after thorough-only
 //verif:harness H_C01_cose_verify_headers thorough-only
 package cose
 
@@ -20,6 +21,11 @@ import (
 )
 
 func H_C01_cose_verify()         { focusHeaders = false; verifyCOSE() }
+
+// the same on an object on which Content() or Verify() has been called before (the object is stateful)
+var statefulC bool
+
+func H_C01_cose_verify_after() { statefulC = true; focusHeaders = false; verifyCOSE() }
 func H_C01_cose_verify_headers() { focusHeaders = true; verifyCOSE() }
 
 func verifyCOSE() {
@@ -30,6 +36,16 @@ func verifyCOSE() {
 	rawLen = len(raw)
 	payload0, sig0, rawp0 := msg.Payload, msg.Signature, msg.Headers.RawProtected
 	e := &base.Envelope{Envelope: &envelope{base: msg}, Raw: raw}
+	// the object is stateful: what was called on it before must not matter (content extraction is allowed on an
+	// unverified envelope and is what callers do first to pick a trust policy)
+	if statefulC {
+		switch rt.Choose("prior.call", 2) {
+		case 0:
+			e.Content()
+		case 1:
+			e.Verify()
+		}
+	}
 	c, err := e.Verify()
 	// the message object is not written by verification
 	rt.Assert(rt.Same(payload0, msg.Payload) && rt.Same(sig0, msg.Signature) && rt.Same([]byte(rawp0), []byte(msg.Headers.RawProtected)), "C01.cose.message.unchanged")
